@@ -527,7 +527,7 @@ def _canon(x, reg, iter_order, objmap):
         return ["f", repr(x)]
     if t is str:
         return ["s", x]
-    if t in LEAF_OF_TYPE:
+    if t in LEAF_OF_TYPE and not isinstance(x, re.Pattern):
         return ["leaf", LEAF_OF_TYPE[t], repr(x)]
     if isinstance(x, re.Pattern):
         # (repr(pattern) truncates long patterns: spell the constructor call out)
